@@ -20,6 +20,7 @@ From GoGit Require Import Proofs.C28Add Proofs.C28AddCor.
 From GoGit Require Import Model.CommitHead Spec.GitCommitHead Proofs.C28Head.
 From GoGit Require Model.TreeObj Model.WriteTree Spec.GitWriteTree Proofs.C28Order.
 From GoGit Require Import Model.IndexGlob Spec.GitIndexGlob Proofs.C28Glob.
+From GoGit Require Proofs.C28IdFlat.
 Import ListNotations.
 Local Open Scope N_scope.
 
@@ -111,6 +112,26 @@ Theorem C28_base_name_compare : forall n1 n2 m1 m2,
   C28Order.lexcmp (n1 ++ C28Order.suffix_of m1) (n2 ++ C28Order.suffix_of m2).
 Proof. exact C28Order.bnc_lex. Qed.
 Print Assumptions C28_base_name_compare.
+
+(* tree ids: for an index of distinct top-level entries (non-zero ids, none intent-to-add) the id
+   BuildTree returns — per-directory sort, Tree.Validate, Tree.Encode, SHA-1 — is the id the
+   transcription of git's cache-tree computes.  For nested directories the two ids are computed by
+   the model and by the spec on every commit case and compared with the implementation and with
+   `git write-tree`; their equality is not proved *)
+Theorem C28_write_tree_id_flat_partial : forall tbl i gid,
+  C28IdFlat.flat_id_guard i = true ->
+  WriteTree.g_write_tree tbl i = Some gid -> GitWriteTree.s_write_tree tbl i = Some gid.
+Proof. exact C28IdFlat.write_tree_id_flat. Qed.
+Print Assumptions C28_write_tree_id_flat_partial.
+
+(* two files "b" and "a" (contents "1\n", "2\n") staged in that order: the tree id is git's *)
+Example C28_write_tree_id_inhabited :
+  let tbl := [[]; [49; 10]; [50; 10]] in
+  let i := [mkI [98] MReg (mkHash 0 1) 2 5 false; mkI [97] MExec (mkHash 0 2) 2 5 false] in
+  C28IdFlat.flat_id_guard i = true /\
+  option_map hex_of_bytes (WriteTree.g_write_tree tbl i) = option_map hex_of_bytes (GitWriteTree.s_write_tree tbl i) /\
+  (exists id, WriteTree.g_write_tree tbl i = Some id /\ List.length id = 20%nat).
+Proof. vm_compute. repeat split; try reflexivity. eexists. split; reflexivity. Qed.
 
 (* a.b < a/ (directory a) < a0 : the classic case where the directory does not sort as "a" *)
 Example C28_tree_order_inhabited :
